@@ -41,13 +41,16 @@ THEOREMS = [
     "Spydr.Names.makeValid_fresh_bounded",
     "Spydr.Names.rename_recorded",
     "Spydr.Names.rename_written",
+    "Spydr.Names.reread_name",
     "Spydr.Names.assign_all_distinct",
+    "Spydr.Names.assign_all_netIdents_distinct",
     "Spydr.Names.assign_all_scopeOk",
-    # formal record of the open findings: the pinned rules violate the statements (decide-checked witnesses)
+    # formal record of the findings: the unrepaired rules violate the statements (decide-checked witnesses)
     "Spydr.Names.pinned_violates_scopeOk",
     "Spydr.Names.pinned_violates_legal_dash",
     "Spydr.Names.pinned_violates_legal_length",
     "Spydr.Names.pinned_violates_legal_suffix",
+    "Spydr.Names.unrepaired_violates_netIdents",
 ]
 
 SCOPES = ["libraries", "definitions", "ports", "cables", "instances"]
@@ -184,6 +187,20 @@ def scan_net_identifiers(text):
             else:
                 out.append(toks[k + 2] if isinstance(toks[k + 2], str) else None)
     return out
+
+
+def pre_distinct(obs):
+    """domain condition: what is written for the elements that HAD identifiers is pairwise different"""
+    seen = {}
+    for i, x in enumerate(obs):
+        if x["assigned"] or not isinstance(x["ident"], str):
+            continue
+        for f in written_forms(x["ident"], x.get("bits") or []):
+            k = fold(f)
+            if k in seen and seen[k] != i:
+                return False
+            seen[k] = i
+    return True
 
 
 def oracle_nets(nets):
@@ -340,6 +357,42 @@ def gen_sibs(rng, n, allow_dup, quote_p=0.0, long_p=0.07, pre_p=0.15, corner_p=0
     return sibs
 
 
+def shape_cables(rng, sibs, unique_names):
+    """Give the cables of one scope widths / lower indices; with some probability add the class
+    'cable x of width w beside a scalar cable named <identifier of x>_<k>_' and its case variants."""
+    for sb in sibs:
+        r = rng.random()
+        if r < 0.1:
+            sb["w"] = rng.randint(2, 4)
+        elif r < 0.14:
+            sb["w"] = 1
+            sb["arr"] = True
+        else:
+            sb["w"] = 1
+        if (sb["w"] > 1 or sb.get("arr")) and rng.random() < 0.3:
+            sb["lo"] = rng.choice([1, 2, 7, 9, 10, 31])
+    if sibs and rng.random() < 0.3:
+        bus = rng.choice(sibs)
+        if len(bus["name"]) <= 40:
+            bus["w"] = max(bus.get("w", 1), rng.randint(2, 3))
+            bus.pop("arr", None)
+            lo = bus.get("lo", 0)
+            have = set(x["name"] for x in sibs)
+            for _ in range(rng.randint(1, 3)):
+                k = lo + rng.randrange(bus["w"] + 1)
+                stem = rng.choice([bus["name"], _sanitised(bus["name"]), _sanitised(bus["name"]).lower(), bus["ident"] or bus["name"]])
+                nm = stem + "_%d_" % k
+                if rng.random() < 0.4:
+                    nm = _swapcase_some(rng, nm)
+                if rng.random() < 0.15:
+                    nm = _sdn(rng, nm, "1")
+                if unique_names and nm in have:
+                    continue
+                have.add(nm)
+                sibs.insert(rng.randrange(len(sibs) + 1), {"name": nm, "ident": None, "rename": False, "w": 1})
+    return sibs
+
+
 def gen_input(rng, tier, level=None):
     if level is None:
         level = "free" if rng.random() < 0.6 else "netlist"
@@ -352,7 +405,10 @@ def gen_input(rng, tier, level=None):
             s = rng.choice(sibs)
             k = rng.randrange(len(s["name"]) + 1)
             s["name"] = s["name"][:k] + rng.choice(NONASCII) + s["name"][k:]
-        return {"level": "free", "scope": rng.choice(SCOPES), "sibs": sibs}
+        scope = rng.choice(SCOPES + ["cables"])
+        if scope == "cables":
+            shape_cables(rng, sibs, unique_names=False)
+        return {"level": "free", "scope": scope, "sibs": sibs}
     inp = {"level": "netlist", "policy": "DEFAULT"}
     for sc in SCOPES:
         n = rng.choice([1, 2, 3, 4, 6]) if sc != "libraries" else rng.choice([1, 2, 3])
@@ -375,7 +431,7 @@ def gen_input(rng, tier, level=None):
             seen = set()
             out = []
             for sb in inp[sc]:
-                sb = {"name": tame(sb["name"]), "ident": tame(sb["ident"]), "rename": sb["rename"]}
+                sb = dict(sb, name=tame(sb["name"]), ident=tame(sb["ident"]))
                 if sb["ident"] is not None and illegal_kind(sb["ident"]) is not None:
                     sb["ident"] = None
                 if sb["name"] in seen or (sb["ident"] is not None and sb["ident"] in seen):
@@ -392,7 +448,8 @@ def gen_input(rng, tier, level=None):
         if not inp["libraries"]:
             inp["libraries"] = [{"name": "work", "ident": None, "rename": False}]
     # widths of the cables / ports (1 = scalar)
-    inp["cable_w"] = [1 if rng.random() < 0.9 else rng.randint(2, 3) for _ in inp["cables"]]
+    shape_cables(rng, inp["cables"], unique_names=True)
+    inp["cable_w"] = [sb["w"] for sb in inp["cables"]]
     inp["port_w"] = [1 if rng.random() < 0.8 else rng.randint(2, 3) for _ in inp["ports"]]
     return inp
 
@@ -709,6 +766,18 @@ class Runner:
         self.drv = drv
         self.tmpdir = tmpdir
         self.seen = {}
+        from common import findings
+        self.open_sigs = {k["signature"] for k in findings.load() if k.get("property") == PID and k.get("status") == "open"}
+
+    def pick(self, explaining):
+        """several smallest rule sets may reproduce the implementation (e.g. an exact comparison and a
+        comparison blind to per-wire forms agree on `Q_1_` beside bus `Q`): prefer one whose findings are all open"""
+        if not explaining:
+            return None
+        for ex in explaining:
+            if all(RULE_SIG[r] in self.open_sigs for r in ex):
+                return ex
+        return explaining[0]
 
     # -- model side ---------------------------------------------------------------------------
     @staticmethod
@@ -725,14 +794,17 @@ class Runner:
     def attribute(self, pre, impl_out, scope=None, nets=None):
         """Which pinned rules (fewest first) make ModelOld reproduce the implementation?"""
         combos = sorted(range(1, 1 << NR), key=lambda m: bin(m).count("1"))
+        found = []
         for m in combos:
+            if found and bin(m).count("1") > len(found[0]):
+                break
             rules = [not bool(m >> i & 1) for i in range(NR)]
             r = self.drv.ask({"fn": "prepass", "rules": rules, "sibs": self.msibs(pre, scope)})
             if "error" in r:
                 continue
             if [(o["ident"], o["rename"], o.get("token")) for o in r["out"]] == impl_out and (nets is None or r.get("nets") == nets):
-                return [RULES[i] for i in range(NR) if m >> i & 1]
-        return None
+                found.append([RULES[i] for i in range(NR) if m >> i & 1])
+        return self.pick(found)
 
     @staticmethod
     def _ascii(pre):
@@ -799,7 +871,9 @@ class Runner:
         except ImportError:
             pass
         fails = fails + oracle_tokens(obs)
-        if isinstance(nets, list):
+        if isinstance(nets, list) and not pre_distinct(obs):
+            self.res.dist("nets.not-judged (pre-existing identifiers collide: outside the domain)")
+        elif isinstance(nets, list):
             fails = fails + oracle_nets(nets)
         elif isinstance(nets, dict):
             fails = fails + [("compose.net-identifier-raised-" + nets.get("raised", "other"), 0, "writing the net names raised")]
@@ -825,13 +899,15 @@ class Runner:
             mv_bits = sib_bits(sib[k]) if isc else []
             m = self.drv.ask({"fn": "makeValid", "name": sib[k]["name"], "bits": mv_bits, "others": mv_others})
             if m.get("id") != got:
-                why = None
+                found = []
                 for mask in sorted(range(1, 1 << NR), key=lambda q: bin(q).count("1")):
+                    if found and bin(mask).count("1") > len(found[0]):
+                        break
                     rules = [not bool(mask >> i & 1) for i in range(NR)]
                     mo = self.drv.ask({"fn": "makeValid", "rules": rules, "name": sib[k]["name"], "bits": mv_bits, "others": mv_others})
                     if mo.get("id") == got:
-                        why = [RULES[i] for i in range(NR) if mask >> i & 1]
-                        break
+                        found.append([RULES[i] for i in range(NR) if mask >> i & 1])
+                why = self.pick(found)
                 if why is None:
                     self.res.corr_mismatch("EdififyNames.make_valid == Spydr.Names.makeValid", inp, impl=got if not isinstance(got, str) else got[:60], model=str(m.get("id"))[:60])
                     self.res.dist("corr.direct.unattributed")
@@ -863,7 +939,7 @@ class Runner:
         if "raised" in r:
             return {"add_rename_property.raised-" + r["raised"]}
         fl = oracle_scope(r["obs"]) + oracle_tokens(r["obs"])
-        if isinstance(r.get("nets"), list):
+        if isinstance(r.get("nets"), list) and pre_distinct(r["obs"]):
             fl = fl + oracle_nets(r["nets"])
         return set(f[0] for f in fl)
 
@@ -1040,20 +1116,68 @@ class Runner:
                     cur = c
         return cur
 
+    def run_chain(self, inp, report=True):
+        """`n` siblings x, x_sdn_1_, ..., x_sdn_<n-1>_ and one more named X: one round of
+        `_conflicts_fix` per sibling (the python recursion limit is not part of the property)."""
+        import spydrnet as sdn
+        from spydrnet.composers.edif.edifify_names import EdififyNames
+        _set_policy("DEFAULT")
+        n = inp["n"]
+        names = ["x"] + ["x_sdn_%d_" % i for i in range(1, n)] + ["X"]
+        cls = _cls(inp.get("scope", "instances"))
+        objs = []
+        for nm in names:
+            o = cls()
+            o.name = nm
+            objs.append(o)
+        try:
+            got = EdififyNames().make_valid(objs[-1], objs)
+        except RecursionError as e:
+            if report:
+                self.res.dist("P.fail.make_valid.recursion-limit")
+                self.res.spec_failure("make_valid.recursion-limit", inp, "make_valid raised RecursionError with %d conflicting siblings" % n)
+            return {"make_valid.recursion-limit"}
+        except Exception as e:
+            if report:
+                self.res.spec_failure("make_valid.raised-" + exc_family(e), inp, repr(e)[:200])
+            return {"make_valid.raised-" + exc_family(e)}
+        m = self.drv.ask({"fn": "makeValid", "name": "X", "others": [{"name": nm} for nm in names[:-1]]})
+        sigs = set()
+        if not m.get("finished", True):
+            self.res["obligations"].append(("conflict-fix loop finished within the proved fuel", False, json.dumps(inp)))
+        if m.get("id") != got:
+            sigs.add("corr")
+            if report:
+                self.res.corr_mismatch("EdififyNames.make_valid == Spydr.Names.makeValid (chain)", inp, impl=str(got)[:60], model=str(m.get("id"))[:60])
+        else:
+            self.res.dist("corr.chain.equal")
+        obs = [{"name": nm, "ident": None, "rename": False, "assigned": False, "bits": []} for nm in names[:-1]]
+        obs.append({"name": "X", "ident": got, "rename": True, "assigned": True, "bits": []})
+        for sig, i, detail in oracle_scope(obs):
+            sigs.add(sig)
+            if report:
+                self.res.spec_failure(sig, inp, detail)
+        return sigs
+
     def run_one(self, inp, report=True):
         if inp.get("level") == "netlist":
             return self.run_netlist(inp, report)
+        if inp.get("level") == "chain":
+            return self.run_chain(inp, report)
         return self.run_free(inp, report)
 
 
 def nontrivial(inp):
-    if inp.get("level") == "netlist":
+    if inp.get("level") in ("netlist", "chain"):
         return True
     s = inp["sibs"]
     return len(s) >= 2
 
 
 def tags(res, inp):
+    if inp.get("level") == "chain":
+        res.dist("level.chain.%d" % inp["n"])
+        return
     if inp.get("level") == "netlist":
         res.dist("level.netlist" + (".benign" if inp.get("benign") else ""))
         lists = [inp[sc] for sc in SCOPES]
@@ -1095,6 +1219,14 @@ def shard(seed, idx, tier, n_cases, corpus, deadline, levels=None):
             res.dist("corpus")
             rn.run_one(inp)
         rng = random.Random(stable_hash([seed, PID, "shard", idx]))
+        chains = []
+        if idx == 1:
+            chains = [1600] if tier == "quick" else [1000, 1600, 3000]
+        for n in chains:
+            inp = {"level": "chain", "n": n, "scope": rng.choice(SCOPES)}
+            res.case(inp, True)
+            tags(res, inp)
+            rn.run_one(inp)
         for k in range(n_cases):
             if time.time() > deadline:
                 res.dist("shard.stopped-at-deadline")
@@ -1159,6 +1291,9 @@ def exhaustive_shard(seed, idx, nsh, tier, deadline):
 
 
 def _short(inp):
+    if inp.get("level") == "chain":
+        return inp
+
     def sh(s):
         return dict(s, name=s["name"] if len(s["name"]) <= 40 else s["name"][:37] + "...(%d)" % len(s["name"]))
     if inp.get("level") == "netlist":
